@@ -15,7 +15,7 @@ TEXT = {
           "for all well-formed intervals with any open/closed pattern and all members x, y the result contains x+y, x-y, x*y, -x, x^n "
           "(tie cases, zero edges and symmetric even powers are the proof's case split), point operands give the exact point. Tied to "
           "the C code by an exhaustive sweep over all interval pairs with end points in {-2..2} plus random intervals on every run. "
-          "Value intervals (lp_interval_*) and interval evaluation of polynomials are covered by correspondence only so far.",
+          "General value intervals (lp_interval_add/mul/pow/sgn) with integer/dyadic/rational/infinite end points are mirrored too; their general product is proved to coincide with the rational model on finite end points (so the enclosure theorem transfers), infinite end points and interval evaluation of polynomials are covered by correspondence and a lost-point search only.",
   "design_ref": "5.15",
   "note": "hand mirror of arithmetic.c tied by correspondence; algebraic end points not replayed; exact scalar arithmetic trusted from C17",
   "technique": "Lean 4 proof over mirror model + exhaustive/differential correspondence harness",
